@@ -50,7 +50,28 @@ SetEnabled(n, b) ==
 Clear == /\ rs' = <<>> /\ index' = [n \in Names |-> 0] /\ version' = version + 1
          /\ last' = [op |-> "clear", ok |-> TRUE, dv |-> 1]
 
+(* Clone: the caller goes on with the copy; the copy has the same list, its own index, and a version restarted at the *)
+(* rule count.  The original (kept by the harness as a shadow) must not be affected by anything done afterwards.    *)
+Fork == /\ UNCHANGED <<rs, index>> /\ version' = Len(rs)
+        /\ last' = [op |-> "fork", ok |-> TRUE, dv |-> 0]
+
+(* add_rules_from_grl: the rules of one GRL text are added one by one in text order; the first duplicate name ends   *)
+(* the call with an error and the rules before it stay added.                                                        *)
+RECURSIVE AddAll(_, _, _)
+AddAll(r, b, i) ==
+    IF i > Len(b) THEN [rs |-> r, ok |-> TRUE, k |-> Len(b)]
+    ELSE IF \E j \in DOMAIN r : r[j].n = b[i][1] THEN [rs |-> r, ok |-> FALSE, k |-> i - 1]
+    ELSE AddAll(InsertAt(r, Cardinality({j \in DOMAIN r : r[j].s >= b[i][2]}) + 1, [n |-> b[i][1], s |-> b[i][2], e |-> TRUE]), b, i + 1)
+BatchSals == {s \in Sals : (\A t \in Sals : t <= s) \/ (\A t \in Sals : t >= s)}      \* the lowest and the highest
+Batches == {<<<<n1, s1>>, <<n2, s2>>>> : n1 \in Names, s1 \in BatchSals, n2 \in Names, s2 \in BatchSals}
+NoBatches == {}
+AddGrl(b) == LET res == AddAll(rs, b, 1) IN
+    /\ rs' = res.rs /\ index' = Rebuild(rs') /\ version' = version + res.k
+    /\ last' = [op |-> "addgrl", b |-> [i \in DOMAIN b |-> [n |-> b[i][1], s |-> b[i][2]]], ok |-> res.ok, dv |-> res.k]
+
 Next == \/ \E n \in Names, s \in Sals : Add(n, s)
+        \/ Fork
+        \/ \E b \in Batches : AddGrl(b)
         \/ \E n \in Names : RemoveRule(n)
         \/ \E n \in Names, b \in BOOLEAN : SetEnabled(n, b)
         \/ Clear
@@ -66,7 +87,9 @@ StableAdd   == [][last'.op = "add" /\ last'.ok =>
                     /\ \E k \in DOMAIN rs' : /\ rs'[k].n = last'.n
                                              /\ rs = RemoveAt(rs', k)
                                              /\ \A i \in DOMAIN rs' : (i > k => rs'[i].s < last'.s)]_vars
-VersionGrows == [][(last'.ok /\ last'.op # "init") <=> version' = version + 1]_vars
+VersionGrows == [][/\ (last'.op \notin {"fork", "addgrl"} => ((last'.ok /\ last'.op # "init") <=> version' = version + 1))
+                    /\ (last'.op = "addgrl" => version' = version + last'.dv)
+                    /\ (last'.op = "fork" => version' = Len(rs'))]_vars
 DupNoEffect  == [][(last'.op = "add" /\ ~last'.ok) => rs' = rs]_vars
 LookupLatest == \A n \in Names : Has(n) => rs[index[n]].n = n
 
